@@ -4,6 +4,15 @@ pid = sys.argv[1]
 variant = sys.argv[2] if len(sys.argv) > 2 else 'a'
 p = next(json.loads(l) for l in open('/verif/properties.jsonl') if json.loads(l)['id'] == pid)
 wt = f'/tmp/mut_{pid}{variant}'
+import glob, os
+prev = []
+for d in sorted(glob.glob(f'/verif/seeded/{pid}*')):
+    try:
+        prev.append(json.load(open(d + '/meta.json'))['summary'][:260].replace('\n', ' '))
+    except Exception:
+        pass
+prev_txt = ('\nIdeas ALREADY USED by earlier changes for this property (do NOT repeat these or close variants; pick another mechanism / code site):\n'
+            + '\n'.join('  - ' + x + ' ...' for x in prev) + '\n') if prev and variant != 'a' else ''
 print(f"""You are testing how good a (hidden) verification harness is. Your job: write ONE realistic, subtle change to the Python library
 s-holst/kyupy that BREAKS the semantic property below while the library still imports and its existing test suite still passes.
 You must NOT look at anything under /verif (it is off limits) — work only from the property text and the source code.
@@ -24,7 +33,7 @@ Requirements for the change:
 * It must need something SPECIFIC to manifest: a particular multi-step sequence, an unusual but legal input, a particular option
   combination, a particular size/arity/alignment — not something that any ordinary use exposes at once (the existing tests must keep passing).
 * It must genuinely violate the property as stated (not merely change an error message or performance).
-{'* Prefer a DIFFERENT part of the anchored code than the most obvious one (e.g. not the first function you see); be creative.' if variant != 'a' else ''}
+{prev_txt}{'* Prefer a DIFFERENT part of the anchored code than the most obvious one (e.g. not the first function you see); be creative.' if variant != 'a' else ''}
 
 Deliverables, all under {wt}/out/ (create the directory):
 1. `patch.diff` — output of `git -C {wt} diff` (only files under src/kyupy).
